@@ -935,6 +935,55 @@ theorem min_gap_jitter_recognised :
       = .ok (some (1, [0, 1, 100])) := by
   decide +kernel
 
+/-- **the reported spacing is fitted to the extent** (gaps allowed, no hint; stack along a line, any input order): whenever the
+stack is accepted, the lowest plane has index 0 and the HIGHEST plane lies EXACTLY at `index · spacing` above it — the estimate
+`refineSpacing` ends with `spacing = extent / n` (tie: `tie_gaps_expressions`).  (Interior planes lie within tolerance:
+`gaps_accepted_within_tolerance`.) -/
+theorem gaps_spacing_fits_extent (nrm : V3) (f : Nat → V3) (g : Nat → Rat) (hfg : ∀ j, nrm.dot (f j) = g j)
+    (hg : StrictMono g) (js : List Nat) {M : Nat} (hM : 1 ≤ M) (hmem : ∀ j, j ∈ js ↔ j < M + 1) (op : Opts)
+    (hsort : op.sort = true) (hmiss : op.allowMissing = true) (hdup : op.allowDuplicate = true ∨ js.Nodup)
+    (rtol atol sp : Rat) (vp : List Int)
+    (h : volumePositionsOf nrm (js.map f) op none rtol atol = .ok (some (sp, vp)))
+    (htop : 0 < roundHalfEven ((g M - g 0) / sp)) :
+    vp = js.map (fun j => roundHalfEven ((g j - g 0) / sp)) ∧
+    sp * ((roundHalfEven ((g M - g 0) / sp) : Int) : Rat) = g M - g 0 := by
+  obtain ⟨m, hmin⟩ := minList_ne_none (diffs_mem g (M + 1) 0 (by omega))
+  have hz : isClose m 0 npRtol eqTol = false := by
+    by_contra hc
+    have hc' : isClose m 0 npRtol eqTol = true := by simpa using hc
+    have hest : estimateSpacing ((List.range (M + 1)).map g) = .ok none := by
+      unfold estimateSpacing; simp only [hmin, hc', if_true, pure, Except.pure]
+    -- the estimate is `none`: the function answers (None, None)
+    have := volumePositionsOf_lift nrm f g hfg hg js hM hmem op hsort hdup none rtol atol (fun _ => (0 : Int)) (.ok none)
+      (fun js' hp' => by
+        rw [hmiss]
+        have hd : (js'.map f).map nrm.dot = js'.map g := by
+          rw [List.map_map]; apply List.map_congr_left; intro j _; exact hfg j
+        unfold examine spacingMissing
+        simp only [hd, if_true, sortRat_mono hg hp', hest, bind, Except.bind, pure, Except.pure, Except.map]
+        rfl)
+    rw [this] at h
+    simp [Except.map] at h
+  have hcrit := gaps_without_hint_criterion nrm f g hfg hg js hM hmem op hsort hmiss hdup hmin hz rtol atol
+  simp only [] at hcrit
+  rw [hcrit] at h
+  split_ifs at h with hc
+  · simp only [Except.ok.injEq, Option.some.injEq, Prod.mk.injEq] at h
+    obtain ⟨hsp, hvp⟩ := h
+    refine ⟨by rw [← hvp, hsp], ?_⟩
+    have hl : (List.range M).map (fun j => g (j + 1) - g 0)
+        = ((List.range (M - 1)).map fun j => g (j + 1) - g 0) ++ [g M - g 0] := by
+      obtain ⟨M', rfl⟩ : ∃ M', M = M' + 1 := ⟨M - 1, by omega⟩
+      rw [List.range_succ, List.map_append]; rfl
+    rw [hl] at hsp
+    rw [← hsp] at htop ⊢
+    have hD : 0 < g M - g 0 := by have := hg (show 0 < M by omega); linarith
+    exact refineSpacing_fits_last m _ hD htop
+  · cases h
+
+/-- non-vacuity: the witness `0, 0.9975, 100` — accepted with spacing 1, the top plane has index 100 > 0 and `1 · 100 = 100` -/
+example : (0 : Int) < roundHalfEven (((100 : Rat) - 0) / 1) := by decide +kernel
+
 /-- **the estimate is exact on exact stacks**: planes at distances `c + k j · s` (plane numbers strictly increasing from 0, two
 neighbouring planes present): the smallest gap is `s`, every distance is a whole multiple of it and the refinement loop returns
 `s` itself — so `gaps_recognised` reports `s` and the plane numbers `k j` -/
